@@ -403,6 +403,58 @@ pub fn c04_h3(rep: &Arc<Reporter>, args: &Args) {
     });
 }
 
+// ------------------------------------------------------------------ C12 over QUIC
+
+/// The client random the QUIC listener hands to the rules is the one of the completed handshake: a rule on one bit
+/// of it ("80/80": deny when the top bit of the first byte is set) must give, for every connection, the verdict that
+/// the client's *actual* random (read off its own TLS key log) implies - with a ClientHello that fits in one Initial
+/// packet and with one that needs two or three (long ALPN list, as a post-quantum key share would).
+pub fn c12_h3(rep: &Arc<Reporter>, args: &Args) {
+    use trusttunnel::rules::{Rule, RuleAction, RulesConfig, RulesEngine};
+    let dir = env::work_dir(&args.root, "c12h3");
+    let rt = env::rt_multi(4);
+    rt.block_on(async {
+        let hosts = Hosts { main: vec![("main.test".into(), vec![])], ..Default::default() };
+        let filler: Vec<Vec<u8>> = (0..12).map(|k| format!("x-verif-filler-{:02}-{}", k, "p".repeat(180)).into_bytes()).collect();
+        for (rule, deny_when_bit_set) in [("80/80", true), ("00/80", false)] {
+            let engine = RulesEngine::from_config(RulesConfig { rule: vec![Rule { cidr: None, client_random_prefix: Some(rule.to_string()), action: RuleAction::Deny }] });
+            let ep = start_endpoint(&dir, "127.0.0.1", &hosts, None, vec![], (true, true, true), move |b| b.rules_engine(engine)).await;
+            for attempt in 0..args.qt(12u64, 48u64) {
+                let big = attempt % 2 == 0;
+                let mut alpn: Vec<&[u8]> = vec![b"h3"];
+                if big { for f in &filler[..(6 + (attempt as usize / 2) % 6)] { alpn.push(f); } }
+                let r = H3::connect(ep.addr, "main.test", &alpn, Duration::from_secs(3), 3000).await;
+                rep.evals(1);
+                rep.distinct(common::fnv(format!("c12h3|{}|{}", rule, attempt).as_bytes()));
+                let (served, random, flight, detail) = match r {
+                    // a denied peer gets no handshake at all: its random cannot be learnt from a key log that was never written
+                    Err(e) => (false, None, 0, e),
+                    Ok(mut c) => {
+                        let (random, flight) = (c.client_random.clone(), c.first_flight_datagrams);
+                        let st = c.roundtrip("CONNECT", None, "_check", None, &[], false, false, Duration::from_secs(3)).await.map(|x| x.1).unwrap_or_default();
+                        c.close().await;
+                        (st.status().is_some(), random, flight, st.summary())
+                    }
+                };
+                let w = json!({"kind":"quic-client-random","rule":format!("deny client_random_prefix = {}", rule),"client_hello":if big { "several Initial packets (long ALPN list)" } else { "one Initial packet" },
+                    "first_flight_datagrams":flight,"client_random":random.as_ref().map(|r| common::hex(r)),"request_processed":served,"detail":detail});
+                if big && served && flight < 2 { rep.inconclusive("c12 h3: the padded ClientHello still fitted in one Initial packet"); }
+                match (&random, served) {
+                    (Some(rnd), true) => {
+                        let bit = rnd[0] & 0x80 != 0;
+                        if bit == deny_when_bit_set { rep.violation("QUIC: a connection whose actual client random matches the deny rule was served (the rules saw another value)", w); }
+                        else { rep.tally(&format!("quic client random: served, actual random does not match the deny rule ({})", if big { "multi-packet hello" } else { "single-packet hello" }), 1); }
+                    }
+                    (None, true) => rep.inconclusive("c12 h3: served but the client's key log has no random"),
+                    // refused: consistent with the rule only if the (unknown) random matched; over many attempts about half must be served
+                    (_, false) => rep.tally(&format!("quic client random: not served ({})", if big { "multi-packet hello" } else { "single-packet hello" }), 1),
+                }
+            }
+            ep.task.abort();
+        }
+    });
+}
+
 // ------------------------------------------------------------------ C02 over HTTP/3
 
 pub fn c02_h3(rep: &Reporter, args: &Args) {
